@@ -31,8 +31,9 @@ APPMODES = ["development", "production"]
 class Hashed:
     """Normal form of a challenge value: 'a digest value that verifies exactly this secret'."""
 
-    def __init__(self, secret):
+    def __init__(self, secret, salt=None):
         self.secret = secret.encode() if isinstance(secret, str) else bytes(secret)
+        self.salt = None if salt is None else bytes(salt)  # an imported digest keeps exactly this salt
 
     def __repr__(self):
         return "Hashed(%r)" % (self.secret[:20],)
@@ -319,7 +320,7 @@ def _challenge(f, p, v, env):
                 return UNKNOWN, None
         return True, Hashed(v)
     if isinstance(v, DigestSpec):
-        return True, Hashed(v.secret)
+        return True, Hashed(v.secret, v.salt if getattr(v, "raw", False) else None)
     return False, None
 
 
@@ -695,6 +696,11 @@ def match(norm, actual, path=""):
             return None
         return "%s: expected unset or empty, found %r" % (path or "value", actual)
     if isinstance(norm, Hashed):
+        if isinstance(actual, Digest) and norm.salt is not None:
+            salt, digest, name = actual
+            if bytes(salt) == norm.salt and name in ALGS and hashlib.new(name, norm.salt + norm.secret).digest() == bytes(digest):
+                return None
+            return "%s: expected the imported digest with its %d-byte salt, found salt of %d bytes (%r)" % (path or "value", len(norm.salt), len(salt), actual)
         if isinstance(actual, Digest) and digest_ok(actual, norm.secret, None):
             return None
         return "%s: expected a digest verifying %r, found %r" % (path or "value", norm.secret[:16], actual)
